@@ -45,6 +45,18 @@ def main():
     except (ValueError, OSError):
         pass
     sys.setrecursionlimit(3000)
+    if os.environ.get("VERIF_LOGGING") == "DEBUG":
+        # environment "debug-logging": what `logging.basicConfig(level=logging.DEBUG)` does in an application that
+        # investigates a refusal - every record of every logger is formatted (into a sink that discards it)
+        import logging
+
+        class _Sink:
+            def write(self, s):
+                return len(s)
+
+            def flush(self):
+                pass
+        logging.basicConfig(level=logging.DEBUG, stream=_Sink(), format="%(asctime)s %(name)s %(levelname)s %(message)s", force=True)
     if os.environ.get("VERIF_DUMP_AFTER"):
         # where a straggler spends its time: a traceback every N seconds on the shard's log
         import threading
